@@ -60,6 +60,22 @@ ShapeBodyLen(s) == 2 + s.topic_len + (IF s.qos > 0 THEN 2 ELSE 0) + (IF Has(s, "
 OK02Shape(e) == /\ LensOK(e, ShapeBodyLen(e.shape), TRUE)
                 /\ (e.enc.k = "ok" => e.enc.tail_is_payload /\ e.enc.len = TotalLen(ShapeBodyLen(e.shape)))
 
+\* ---- packets too large to travel as JSON (2^21 .. 2^28 bytes), described by their shape: a QoS-0 PUBLISH with a
+\* topic of topic_len bytes and a payload of payload_len bytes.  The specification computes the sizes and the header;
+\* value / byte equality at that size is computed by the harness (Packet: PartialEq) and reported as booleans.
+BigRl(sh) == 2 + sh.topic_len + sh.payload_len + sh.props_len
+BigEncOK(e) ==
+    LET rl == BigRl(e.shape) IN
+    /\ e.enc.k = "ok" /\ e.enc.len = 1 + Len(EncVarInt(rl)) + rl /\ e.enc.tail_is_payload
+    /\ SubSeq(e.enc.head, 1, 1 + Len(EncVarInt(rl))) = <<48 + (IF e.shape.retain THEN 1 ELSE 0)>> \o EncVarInt(rl)
+BigDecOK(e, withReenc) ==
+    \A i \in 1..Len(e.dec) :
+        LET d == e.dec[i] IN
+        /\ d.res.k = "ok" /\ d.eq
+        /\ (d.front = "poll" => d.total = e.enc.len /\ d.body_ok /\ d.body_len = BigRl(e.shape) /\ d.pos = e.enc.len)
+        /\ (d.front = "async" => d.pos = e.enc.len)
+        /\ (withReenc => d.reenc.k = "ok" /\ d.reenc.same)
+
 \* ---- C09
 StreamOK(b, s) ==
     s.k = "body" => /\ s.res.k = "ok"
@@ -104,6 +120,7 @@ Accept(e) ==
     CASE e.ev = "RoundTrip" -> (Prop = "C01" => OK01(e))
       [] e.ev = "Lens"      -> (Prop = "C02" => OK02(e))
       [] e.ev = "LensShape" -> (Prop = "C02" => OK02Shape(e))
+      [] e.ev = "BigShape"  -> (Prop = "C01" => BigEncOK(e) /\ BigDecOK(e, FALSE))
       [] e.ev = "LensHuge"  -> (Prop = "C02" => (e.body_hi > 0 => IsErrE(e.encode_len, "InvalidVarByteInt")))
       [] e.ev = "Enc"       -> (CASE Prop = "C09" -> OK09(e) [] Prop = "C10" -> OK10(e) [] OTHER -> TRUE)
       [] e.ev = "Coverage"  -> (Prop = "C10" => CoverageOK(e))
